@@ -60,7 +60,7 @@ func (c *Ctx) mapInputs() ([][]byte, []*gen.Printer) {
 	}
 	n := c.N(120, 4000)
 	for i := 0; i < n; i++ {
-		o := gen.Opts{ObjRefs: true, ClassExprs: true, AttributesCmd: i%3 == 0, NonASCII: i%4 == 1, MaxDepth: 2 + i%2, MultiLineFrags: i%6 == 2, Trailers: i%3 == 1, TrailingSpace: i%2 == 0, StmtAfterBlock: true, ShorthandElse: true, VerbSpacing: i%2 == 1, DupAttrs: i%3 == 2}
+		o := gen.Opts{ObjRefs: true, ClassExprs: true, AttributesCmd: i%3 == 0, NonASCII: i%4 == 1, MaxDepth: 2 + i%2, MultiLineFrags: i%6 == 2, Trailers: i%3 == 1, TrailingSpace: i%2 == 0, StmtAfterBlock: true, ShorthandElse: true, VerbSpacing: i%2 == 1, DupAttrs: i%3 == 2, UnescBlocks: true, Switch: true}
 		f := gen.GenFile(newRand(c.R.Int63()), o, 1+i%2, 1+i%3)
 		switch i % 5 {
 		case 1:
